@@ -724,10 +724,22 @@ func (wd *world) judgeAttempt(ti *txInfo, class string, before, after snapshot, 
 					}
 				}
 			}
+			// outputs of ti that a recorded unconfirmed transaction spends (a
+			// child that was re-published before its forgotten parent)
+			spentByUnmined := map[[2]uint64]bool{}
+			for _, x := range wd.txs {
+				if has(after.Unmined, x.id) > 0 {
+					for _, in := range x.out.Ins {
+						spentByUnmined[in] = true
+					}
+				}
+			}
 			for _, c := range ti.out.Creds {
 				// an output that is still under a lease from an earlier life
-				// of this transaction does not count towards the balance
-				if !wd.leased[[2]uint64{ti.id, c[0]}] {
+				// of this transaction, or already spent by a recorded child,
+				// does not count towards the balance
+				o := [2]uint64{ti.id, c[0]}
+				if !wd.leased[o] && !spentByUnmined[o] {
 					delta += ti.out.Outs[c[0]]
 				}
 				cnt := 0
